@@ -151,7 +151,7 @@ def rule_dump(ctx, cb=CB):
     oc = prog.one('<%s as callbacks::Callback>::on_complete' % cb)
     wr = [c for c in oc.calls if mir.method_name(c.name) == 'write_all']
     fs = mir.fmt_sites(oc)
-    head = [f for f in fs if f.literal_skeleton == 'txid;indexOut;height;value;address\n' and not f.args]
+    head = util.header_writes(prog, oc, 'txid;indexOut;height;value;address\n')
     ctx.check('dump', 'header', len(head) == 1, oc, 'header line txid;indexOut;height;value;address')
     rows = [f for f in fs if len(f.args) == 5]
     k = 'each(self.unspents)'
